@@ -101,6 +101,13 @@ ZonedCells ==
      \* a provider reporting an impossible offset (+-10^10 s, +-9 223 372 037 s - the first whose nanoseconds leave 64 bits -, 10^12 s): still no panic, assertion or hang
      \cup {[op |-> "ZonedX.absurd", args |-> [off |-> o, recv |-> r]] : o \in {Bg(1, <<0, 0, 100>>), Bg(-1, <<0, 0, 100>>), Bg(1, <<2037, 3372, 92>>), Bg(-1, <<2037, 3372, 92>>), Bg(1, <<0, 0, 0, 1>>)}, r \in XRecv}
      \cup {[op |-> "ZonedX.fromLocal", args |-> [zone |-> z, dt |-> x, dis |-> ds]] : z \in XZones, x \in DTs, ds \in {"compatible", "earlier", "later", "reject"}}
+     \* the public formatter records (temporal_rs::parsers: fields are public, Display is implemented): any field values, no panic
+     \* (-1 stands for the maximum of the unsigned field type)
+     \cup {[op |-> "FmtbX.date", args |-> [y |-> y, m |-> m, d |-> d]] : y \in {-2147483647 - 1, 2147483647, 1000000, -1000000, 999999, -999999, 0, 9999, 10000, -1}, m \in {0, 1, 12, 13, 99, 100, 255}, d \in {0, 31, 100, 255}}
+     \cup {[op |-> "FmtbX.time", args |-> [h |-> h, mi |-> mi, s |-> sc, ns |-> ns, prec |-> p]] : h \in {0, 23, 24, 99, 100, 255}, mi \in {0, 59, 60, 255}, sc \in {0, 59, 60, 255},
+             ns \in {0, 999999999, 1000000000, 2147483647}, p \in {-1, -2, 0, 3, 9, 10, 255}}
+     \cup {[op |-> "FmtbX.duration", args |-> [form |-> f, h |-> h, mi |-> mi, s |-> sc, fr |-> fr, prec |-> p, date |-> dt, y |-> y, d |-> d]] :
+             f \in {"hours", "minutes", "seconds", "none"}, h \in {0, 1, -1}, mi \in {0, 1, -1}, sc \in {0, -1}, fr \in {0, 1, 999999999, -1}, p \in {-1, 0, 9, 255}, dt \in {0, 1}, y \in {0, -1}, d \in {0, -1}}
      \* a time zone identifier of n components ("a/a/.../a"): however long, an answer and no exhausted stack
      \cup {[op |-> "MiscX.deepZoneId", args |-> [n |-> n]] : n \in {1, 1000, 300000}}
      \* a property bag with an extreme year in the calendars whose arithmetic is this crate's or plain ICU arithmetic (the astronomical
